@@ -4,6 +4,7 @@ import subprocess
 from concurrent.futures import ThreadPoolExecutor
 
 CB_KINDS = ('G', 'A', 'EN', 'EX', 'NT', 'XC', 'DF')
+RETRIES = []      # (binary, first status, status of the single re-run) of watchdog / SIGKILL endings
 
 
 class Rec:
@@ -85,8 +86,10 @@ def parse_output(text, scripts, results, base):
     return idx + 1 - base, header
 
 
-def run_scripts(binary, scripts, alarm=20, env=None, wrapper=None, timeout=None):
-    """Run all scripts on one binary (sequentially, restarting after a crash)."""
+def run_scripts(binary, scripts, alarm=20, env=None, wrapper=None, timeout=None, _retry=True):
+    """Run all scripts on one binary (sequentially, restarting after a crash).  A script whose process was
+    killed from outside (wall-clock watchdog, SIGKILL) is run once more on its own: a watchdog firing on a
+    loaded machine is inconclusive, only a repeatable hang is reported."""
     results = [Result(s) for s in scripts]
     base = 0
     header = None
@@ -118,6 +121,12 @@ def run_scripts(binary, scripts, alarm=20, env=None, wrapper=None, timeout=None)
             last.status = 'died:rc=%s' % rc if rc != -999 else 'hang'
             if err:
                 last.recs.append(Rec('STDERR ' + err[-1500:].replace('\n', ' | ')))
+            if _retry and (rc == -999 or rc == -9):
+                again = run_scripts(binary, [scripts[base + started - 1]], alarm=alarm, env=env, wrapper=wrapper,
+                                    timeout=max(600, (timeout or 0) * 2), _retry=False)[0]
+                again.script = last.script
+                RETRIES.append((binary, last.status, again.status))
+                results[base + started - 1] = again
         elif rc != 0 and base + started >= len(scripts):
             # all scripts completed but exit code non-zero (e.g. leak report at exit)
             last.recs.append(Rec('EXITRC %s %s' % (rc, (err or '')[-1500:].replace('\n', ' | '))))
